@@ -209,6 +209,20 @@ func failedRunBefore(c *core.Ctx, kind int) {
 	o := pipe.Exec(pipe.Spec{Dir: dir, Entrypoints: []string{"./p1", "./p2"}, Globals: map[string][]string{"gengo:g1": {"true"}, "gengo:g2": {"true"}},
 		Gens: []pipe.GenScript{g1, g2}})
 	c.Trans(1)
+	if o.Err == "" && o.Panic == "" && o.LoadErr == "" && kind >= 2 {
+		// Execute returned WITHOUT error although a rendering was not parseable Go: then C01 speaks about the files
+		// it wrote (that the run should have failed is C02's business)
+		for _, f := range []string{"p1/zz_generated.g1.go", "p1/zz_generated.g2.go", "p2/zz_generated.g1.go", "p2/zz_generated.g2.go"} {
+			src, err := os.ReadFile(dir + "/" + f)
+			if err != nil {
+				continue
+			}
+			if _, perr := parser.ParseFile(token.NewFileSet(), f, src, parser.ParseComments); perr != nil {
+				c.Fail("", Case{Mod: 0, Item: Item{Frags: []int{0, 6}}, AfterFailure: kind + 1}, "Execute returned without error (one rendering for p1.A was `func {`), and the file %s it wrote does not parse: %v\n--- file ---\n%s", f, perr, src)
+			}
+		}
+		return
+	}
 	if o.Err == "" {
 		c.Internal("the run of failure kind %d was meant to fail", kind)
 	}
